@@ -221,6 +221,10 @@ class Evaluator:
             return self.ev(e['e'])
         raise Undecidable('expression kind %s' % k)
 
+    def sub_evaluator(self, g, env, arrays):
+        """evaluator for the body of callee g; subclasses keep their bindings of members / texts"""
+        return Evaluator(self.prog, g, env, arrays, self.depth + 1)
+
     def call(self, e):
         fn = e.get('fn') or ''
         if fn in LIBC and not e.get('clsp'):
@@ -252,7 +256,7 @@ class Evaluator:
             if pt.get('bits'):
                 v = wrap(v, pt['bits'], pt.get('sg', True))
             env[p['id']] = v
-        sub = Evaluator(self.prog, g, env, arrays, self.depth + 1)
+        sub = self.sub_evaluator(g, env, arrays)
         rt = T(g, g.get('ret'))
 
         def fin(r):
